@@ -93,7 +93,7 @@ class Parser:
         self.filepath_stack: List[str] = filepath_stack or []
         self.comment_block: List[Comment] = comment_block or []
         self.scope_stack_init_length: int = len(self.scope_stack)
-        self.last_newline_pos: int = 0
+        self.last_newline_pos: int = -1
         self.traditional_mode = traditional_mode
 
     def push_scope(self, scope: Scope) -> None:
@@ -778,7 +778,7 @@ class Parser:
         # we dont use `last_newline_pos` here,
         # because the recursive parsing may result a deeper `last_newline_pos`.
         last_newline = p.lexer.lexdata.rfind("\n", 0, lexpos)
-        return lexpos - max(last_newline, 0)
+        return lexpos - last_newline
 
 
 def parse(filepath: str, traditional_mode: bool = False) -> Proto:
